@@ -60,27 +60,29 @@ def fixpoint(tier, seed):
     from giscanner.introspectablepass import IntrospectablePass
     out = {'obligations': 0, 'discharged': 0, 'violations': [], 'known': [], 'samples': [], 'detail': {}}
     results = {}
-    for label, order in (('forward A,B,C,D', 'ABCD'), ('reverse D,C,B,A', 'DCBA')):
-        tr, ns, cbs, names = build_chain(order)
+    for label, order, depth in (('chain of 4, forward A,B,C,D', 'ABCD', 4), ('chain of 4, reverse D,C,B,A', 'DCBA', 4),
+                                ('chain of 3, forward A,B,C', 'ABC', 3), ('chain of 2, forward A,B', 'AB', 2)):
+        tr, ns, cbs, names = build_chain(order, depth)
         IntrospectablePass(tr, {}).validate()
         results[label] = closed(tr, ns)
     out['detail']['validate.closed native histories'] = {k: v for k, v in results.items()}
     out['samples'].append({'history': 'callbacks A->B->C->D(varargs) appended A,B,C,D; real IntrospectablePass.validate()',
-                           'open references after validate': results['forward A,B,C,D']})
-    if results['forward A,B,C,D']:
-        rp = os.path.join(ROOT, 'replay', 'C05')
+                           'open references after validate': results['chain of 4, forward A,B,C,D']})
+    rp = os.path.join(ROOT, 'replay', 'C05')
+    known = [l for l in open(os.path.join(ROOT, 'known_findings.txt')) if l.startswith('property=C05') and 'C05.validate.closed' in l]
+    # the recorded finding is exactly: chain of 4 in forward order leaves the single open reference A -> B.
+    expected_known = {'chain of 4, forward A,B,C,D': [('A', 'T.B')]}
+    for label, opens in results.items():
+        if not opens:
+            continue
         os.makedirs(rp, exist_ok=True)
-        path = os.path.join(rp, 'validate.closed.json')
-        json.dump({'property': 'C05', 'obligation': 'C05.validate.closed',
-                   'history': 'append callbacks A,B,C,D with A(cb: B), B(cb: C), C(cb: D), D(...); validate()',
-                   'open_references': results['forward A,B,C,D'],
-                   'note': 'A stays introspectable although B is not; reproduce with contracts/extra/c05_fixpoint.py'},
-                  open(path, 'w'), indent=1)
-        known = [l for l in open(os.path.join(ROOT, 'known_findings.txt')) if l.startswith('property=C05') and 'C05.validate.closed' in l]
-        if known:
+        path = os.path.join(rp, 'validate.closed.%s.json' % label.split(',')[0].replace(' ', '_'))
+        json.dump({'property': 'C05', 'obligation': 'C05.validate.closed', 'history': label,
+                   'open_references': opens, 'note': 'reproduce with contracts/extra/c05_fixpoint.py'}, open(path, 'w'), indent=1)
+        if known and expected_known.get(label) == [tuple(o) for o in opens]:
             out['known'].append('callable introspectability is not iterated to a fixpoint: a user preceding a dependency chain '
-                                'of length >= 3 stays introspectable [IntrospectablePass.validate C05.validate.closed]')
+                                'of length >= 3 stays introspectable [IntrospectablePass.validate C05.validate.closed, %s]' % label)
         else:
-            out['violations'].append({'text': 'failed obligation C05.validate.closed: %r' % (results['forward A,B,C,D'],),
+            out['violations'].append({'text': 'failed obligation C05.validate.closed on history "%s": open references %r' % (label, opens),
                                       'replay': os.path.relpath(path, ROOT), 'confirmed': True})
     return out
